@@ -1674,12 +1674,23 @@ def run_predicates(J: Judge, only: str | None, quota: int, budget: Budget) -> No
             ctx.inconclusive_(f"predicate fixture {name} does not answer True on its valid arguments: {o[1]!r}"[:300])
             continue
         ctx.mon(f"pred-valid-true:{name}")
+        # depth-1 pass: every octet-typed slot through the boundary values of every offset, the others left valid
+        planned: list = []
+        for i, kind in enumerate(kinds):
+            if kind in (O, "b") and isinstance(valid[i], bytes):
+                for m, _lab, _off in M.systematic(valid[i], guess_fieldmap(valid[i]), max(120, quota // 4)):
+                    a2 = list(valid)
+                    a2[i] = m
+                    planned.append(([i], a2))
         seen = 0
-        while seen < quota and not budget.over():
-            args = list(valid)
-            slots = rng.sample(range(len(args)), rng.choice([1, 1, 1, 2, len(args)]) if len(args) > 1 else 1)
-            for i in slots:
-                args[i] = mutate(kinds[i], args[i])
+        while seen < quota + len(planned) and not budget.over():
+            if planned:
+                slots, args = planned.pop()
+            else:
+                args = list(valid)
+                slots = rng.sample(range(len(args)), rng.choice([1, 1, 1, 2, len(args)]) if len(args) > 1 else 1)
+                for i in slots:
+                    args[i] = mutate(kinds[i], args[i])
             o = J.call(pe, "args", 0, tuple(args), fn, *args, **kw)
             seen += 1
             if o[0] == "skip":
